@@ -79,11 +79,19 @@ const (
 	LQuoteAscii // needs quoting: blanks, specials, leading/trailing/double dots
 	LUTF8Atom
 	LUTF8Quote
-	LTab // contains a TAB: cannot be represented in RFC 5321
+	LTab               // contains a TAB: cannot be represented in RFC 5321
+	LUTF8NonPrintQuote // needs quoting AND holds valid UTF-8 that strconv.IsPrint rejects (U+00A0, U+200B, U+00AD, U+2028 ...)
+	LUTF8NonPrintAtom  // a dot-atom holding such runes
 	nLocalKinds
 )
 
-var LocalKindNames = []string{"plain", "special-atom", "needs-quote", "utf8-atom", "utf8-needs-quote", "tab"}
+var LocalKindNames = []string{"plain", "special-atom", "needs-quote", "utf8-atom", "utf8-needs-quote", "tab", "utf8-nonprint-needs-quote", "utf8-nonprint-atom"}
+
+// NonPrintRunes: valid UTF-8 that unicode.IsPrint / strconv.IsPrint reject — no-break space, zero width
+// space, soft hyphen, line / paragraph separator, BOM, C1 control, private use, unassigned, noncharacter,
+// last code point.  net/mail accepts all of them in atoms and quoted strings (RFC 6532); an escaping
+// routine written for Go source (strconv.Quote, %q) rewrites them into ASCII escapes.
+var NonPrintRunes = []string{"\u00a0", "\u200b", "\u00ad", "\u2028", "\u2029", "\ufeff", "\u0085", "\ue000", "\u0378", "\ufffe", "\U0010ffff", "\u061c", "\u3000"}
 
 func GenLocal(r *rand.Rand, k LocalKind) string {
 	switch k {
@@ -122,6 +130,14 @@ func GenLocal(r *rand.Rand, k LocalKind) string {
 		return pick(r, utf8Bits) + pick(r, quoteChars) + pick(r, plainLocals) + pick(r, utf8Bits)
 	case LTab:
 		return pick(r, plainLocals) + "\t" + pick(r, plainLocals)
+	case LUTF8NonPrintQuote:
+		s := pick(r, plainLocals) + pick(r, NonPrintRunes) + pick(r, plainLocals) + pick(r, quoteChars) + pick(r, plainLocals)
+		if r.Intn(3) == 0 {
+			s = pick(r, quoteChars) + pick(r, NonPrintRunes) + s
+		}
+		return s
+	case LUTF8NonPrintAtom:
+		return pick(r, plainLocals) + pick(r, NonPrintRunes) + pick(r, plainLocals)
 	}
 	return "x"
 }
@@ -129,7 +145,11 @@ func GenLocal(r *rand.Rand, k LocalKind) string {
 // GenMailbox draws a mailbox; allowUTF8 admits non-ASCII local parts and domains.
 func GenMailbox(r *rand.Rand, allowUTF8 bool) (Mailbox, LocalKind) {
 	var k LocalKind
-	switch x := r.Intn(20); {
+	switch x := r.Intn(23); {
+	case x >= 20 && x < 22:
+		k = LUTF8NonPrintQuote
+	case x == 22:
+		k = LUTF8NonPrintAtom
 	case x < 6:
 		k = LPlain
 	case x < 9:
@@ -143,7 +163,7 @@ func GenMailbox(r *rand.Rand, allowUTF8 bool) (Mailbox, LocalKind) {
 	default:
 		k = LTab
 	}
-	if !allowUTF8 && (k == LUTF8Atom || k == LUTF8Quote) {
+	if !allowUTF8 && (k == LUTF8Atom || k == LUTF8Quote || k == LUTF8NonPrintQuote || k == LUTF8NonPrintAtom) {
 		k = LQuoteAscii
 	}
 	d := pick(r, domains)
